@@ -1,7 +1,8 @@
 PROP = dict(
     module="M3d.Props.C19",
     corr=dict(quick=500, thorough=2500),
-    gen=["ReflectAmount"],
+    gen=["ReflectAmount", "Kernels"],
+    tie_modules=["M3d.Lemmas.KernelsTieRS"],
     corr_theorems=(
         "schlick schlickg: M3d.C19.schlick_endpoints_monotone / reflectAmount_range / reflectAmount_source_is_schlick (schlickg runs the definition regenerated from material.go); rdens rddens rsamp rsampd rbsdf: "
         "refract_sampler_matches_density, lobe_split_sums_to_one, dest_density_symmetry; cyl: cylinder_sample_on_surface, "
@@ -24,6 +25,12 @@ PROP = dict(
         "with zero-area triangles; focus points inside/outside/filtered out, PhongFocusPoint with point == Target.  "
         "Distinct = distinct op lines (mesh cases depend on Go's map iteration order, read back through a hook)."),
     trusted=[
+        "regenerated, not hand-written: lean/M3d/Gen/Kernels.lean (Go->Lean translator harness/hlib/go2lean, run on the current "
+        "source on every check) contains render3d/material.go's RefractMaterial.refract/refractInverse/refractBSDF/reflectBSDF/BSDF/"
+        "SourceDensity/DestDensity/reflectAmount, maximumCosine, LambertMaterial.SourceDensity/BSDF, HGMaterial.numericalG, "
+        "densityAroundUniform; M3d.KernelsTie.RS.* re-prove against it that the models of Model/RenderSampling.lean are those functions "
+        "(constants = the doubles of Go's constant folding, math.Pow(x,5) = pow5 as a hypothesis validated bit for bit by the "
+        "correspondence); exported ones are also executed against the real code (C06 kind gk)",
         "modelled, not verified: IEEE rounding (theorems are over ordered fields; the Float run of the same definitions is compared bit for bit with Go)",
         "libm results (cos, sin, acos, pow with non-integer exponent) are passed to the model as arguments computed by the harness with the expression the Go code uses; their closed forms are only validated with a tolerance (validate: sites)",
         "math.Pow(x,5) is modelled as x*((x*x)*(x*x)) (Go's square-and-multiply), confirmed bit for bit on every run",
